@@ -2372,6 +2372,26 @@ impl OutboundPayments {
 			.map_err(|e| { self.remove_outbound_if_all_failed(payment_id, &e); e })
 	}
 
+	/// verif hook (add-only): register a payment and send it along `route` with an explicit payment hash and
+	/// an optional keysend preimage that need not hash to it.
+	#[cfg(feature = "verif_hooks")]
+	#[rustfmt::skip]
+	pub(super) fn verif_send_with_hash_and_keysend<NS: NodeSigner, ES: EntropySource, F>(
+		&self, route: &Route, payment_hash: PaymentHash, recipient_onion: RecipientOnionFields,
+		keysend_preimage: Option<PaymentPreimage>, payment_id: PaymentId, entropy_source: &ES,
+		node_signer: &NS, best_block_height: u32, send_payment_along_path: F
+	) -> Result<(), PaymentSendFailure>
+	where
+		F: Fn(SendAlongPathArgs) -> Result<(), APIError>,
+	{
+		let onion_session_privs = self.add_new_pending_payment(payment_hash, recipient_onion.clone(), payment_id,
+			keysend_preimage, route, None, entropy_source, best_block_height, None)?;
+		self.pay_route_internal(route, payment_hash, &recipient_onion,
+			keysend_preimage, None, None, payment_id, &onion_session_privs,
+			false, node_signer, best_block_height, &send_payment_along_path)
+			.map_err(|e| { self.remove_outbound_if_all_failed(payment_id, &e); e })
+	}
+
 	// If we failed to send any paths, remove the new PaymentId from the `pending_outbound_payments`
 	// map as the payment is free to be resent.
 	#[rustfmt::skip]
